@@ -291,7 +291,22 @@ struct Model {
 
 fn render(m: &Model, rng: &mut Rng) -> String {
     let mut s = String::from("#[typeshare]\npub struct UserA { pub v: u8 }\n#[typeshare]\npub struct UserB { pub w: String }\n#[typeshare]\npub struct Gen1<X> { pub g: X }\n#[typeshare]\npub struct Gen2<X, Y> { pub g: X, pub h: Y }\n\n");
-    let g = if m.generics.is_empty() { String::new() } else { format!("<{}>", m.generics.join(", ")) };
+    // a third of the programs declare defaults for the trailing or for all type parameters (`<T, U = String>`): a parameter
+    // with a default is a parameter like any other (chosen by the shape of the model, not by the random stream)
+    let sel = (m.generics.len() + m.galiases.len() + m.gnewtypes.len() + m.consts.len()) % 6;
+    let decl = |ps: &[String]| -> String {
+        let n = ps.len();
+        ps.iter()
+            .enumerate()
+            .map(|(i, p)| match sel {
+                0 if i == n - 1 => format!("{p} = String"),
+                1 => format!("{p} = u32"),
+                _ => p.clone(),
+            })
+            .collect::<Vec<_>>()
+            .join(", ")
+    };
+    let g = if m.generics.is_empty() { String::new() } else { format!("<{}>", decl(&m.generics)) };
     // a constraints decorator that names a parameter other than the first: the declaration keeps the parameters in order
     let deco = match m.generics.len() {
         2 if rng.coin() => format!("(swiftGenericConstraints = \"{}: Equatable & Hashable\")", m.generics[1]),
@@ -328,7 +343,7 @@ fn render(m: &Model, rng: &mut Rng) -> String {
     for (i, p) in m.consts.iter().enumerate() {
         s.push_str(&format!("#[typeshare]\npub const CONST_{i}: {p} = {};\n", i + 1));
     }
-    let gp = format!("<{}>", m.gparams.join(", "));
+    let gp = format!("<{}>", decl(&m.gparams));
     for (i, t) in m.galiases.iter().enumerate() {
         s.push_str(&format!("#[typeshare]\npub type Palias{i}{gp} = {};\n", t.render(rng, true)));
     }
